@@ -695,7 +695,7 @@ func c01Chain(n int, dom string) [][]string {
 func init() {
 	register("C01", func(c *Ctx) {
 		r := c.Rng
-		fams := c01Families()
+		fams := append(c01Families(), c01OverlapFamily())
 		byName := map[string]*c01Family{}
 		for _, f := range fams {
 			byName[f.name] = f
@@ -706,7 +706,7 @@ func init() {
 		if c.Thorough() {
 			nBase, nRand = 400, 1100
 		}
-		c.Rule = "model families (ACL, superuser, ACL without users / resources, RBAC, resource roles, RBAC with domains, deny / priority effects, keyMatch/regexMatch, ABAC on maps and structs, in-lists, eval() sub-rules, EnforceContext, disabled enforcer, broken matchers) x their own matcher and random matcher ASTs of depth <= 3 (printed with minimal or full parentheses, dotted or escaped, either quote, [ ] or ( ) lists) x random policies / role links over the small universe x EVERY request over the universe plus wrong-arity and non-string requests; bounded-exhaustive part: every policy of <= 2 rules x every link set over 3 names for the three RBAC families; role chains of 9..12 links and cyclic graphs always included; non-trivial = some error-free request is allowed; observables: Enforce, EnforceEx (+ explained rule), EnforceWithMatcher(own matcher), BatchEnforce"
+		c.Rule = "model families (ACL, superuser, ACL without users / resources, RBAC, resource roles, RBAC with domains, deny / priority effects, keyMatch/regexMatch, ABAC on maps and structs, in-lists, eval() sub-rules, EnforceContext, disabled enforcer, broken matchers) x their own matcher and random matcher ASTs of depth <= 3 (printed with minimal or full parentheses, dotted or escaped, either quote, [ ] or ( ) lists) x random policies / role links over the small universe x EVERY request over the universe plus wrong-arity and non-string requests; bounded-exhaustive part: every policy of <= 2 rules x every link set over 3 names for the three RBAC families; role chains of 9..12 links and cyclic graphs always included; CONSTRUCTION MODES: every case is installed on the real enforcer in a seeded way — seq (AddNamedPolicy then AddNamedGroupingPolicy one by one), load (adapter + LoadPolicy), inter (single calls of all policy types and role definitions randomly interleaved, Enforce calls in between), batch (AddNamedPolicies / AddNamedGroupingPolicies in random chunks), mixed (part loaded, the rest by interleaved single calls, plus links outside the case added to a role definition and removed again) — and the listing is checked afterwards (p: exact order, g: same set); a family with two role definitions g, g2 over ONE name universe (rbac-two-graphs) and cases with two policy types p, p2 whose second matcher uses g2 on subjects and g on objects (two-types) exercise the routing of incremental rules to the right policy type / role graph; non-trivial = some error-free request is allowed; observables: Enforce, EnforceEx (+ explained rule), EnforceWithMatcher(own matcher), BatchEnforce"
 
 		// ---- 1. every family with its own matcher and with random matchers
 		for _, f := range fams {
@@ -716,7 +716,7 @@ func init() {
 			}
 			for i := 0; i < nBase; i++ {
 				cs := c01Build(r, next(f.name), f, nil, effs[i%len(effs)], r.Intn(6), r.Intn(7))
-				c01Run(c, cs)
+				c01RunMode(c, cs)
 			}
 			for i := 0; i < nRand; i++ {
 				f.vocab.illTyped = 60
@@ -730,7 +730,7 @@ func init() {
 					eff = c01EffectTags[r.Intn(len(c01EffectTags))]
 				}
 				cs := c01Build(r, next(f.name+".rnd"), f, m, eff, r.Intn(5), r.Intn(6))
-				c01Run(c, cs)
+				c01RunMode(c, cs)
 			}
 		}
 
@@ -759,7 +759,7 @@ func init() {
 					cs.p[0].rules = [][]string{{last, "d1", "data1", "read"}, {last, "d2", "data1", "read"}}
 					cs.reqs = c01AllReqs(r, nil, [][]c01V{c01StrVals("n0", "n1", "n2", "n3", last), c01StrVals("d1", "d2"), c01StrVals("data1"), c01StrVals("read")}, false)
 				}
-				c01Run(c, cs)
+				c01RunMode(c, cs)
 			}
 			// cycles
 			cs := c01Build(r, next(fn+".cycle"), f, nil, "ao", 4, 0)
@@ -773,7 +773,7 @@ func init() {
 				}
 				cs.g[gi].rules = rules
 			}
-			c01Run(c, cs)
+			c01RunMode(c, cs)
 		}
 
 		// ---- 3. bounded-exhaustive: every policy of <= 2 rules x every link set over 3 names
@@ -781,6 +781,9 @@ func init() {
 
 		// ---- 4. special cases
 		c01Specials(c, byName, next)
+
+		// ---- 5. two role definitions over one name universe x two policy types x construction modes
+		c01TwoTypes(c, next)
 	})
 }
 
@@ -862,7 +865,7 @@ func c01Exhaustive(c *Ctx, byName map[string]*c01Family, next func(string) strin
 						cs.g[1].rules = g2
 					}
 					cs.reqs = reqs
-					c01Run(c, cs)
+					c01RunMode(c, cs)
 				}
 			}
 		}
@@ -880,7 +883,7 @@ func c01Specials(c *Ctx, byName map[string]*c01Family, next func(string) string)
 		// disabled enforcer: everything is allowed, even broken requests
 		cs := c01Build(r, next("disabled"), acl, nil, "ao", 3, 0)
 		cs.disabled = true
-		c01Run(c, cs)
+		c01RunMode(c, cs)
 
 		// EnforceContext: two request / policy / effect / matcher definitions, unknown names
 		cs = c01Build(r, next("context"), byName["rbac"], nil, "ao", 4, 4)
@@ -895,37 +898,37 @@ func c01Specials(c *Ctx, byName map[string]*c01Family, next func(string) string)
 			{"r2", "p", "e", "m"}, {"r", "p2", "e", "m"}, {"r", "p", "e2", "m"}, {"r2", "p2", "e", "m2"}, {"r", "p", "e", "m"}} {
 			cs.reqs = append(cs.reqs, c01Req{bad, c01StrVals("alice", "data1")}, c01Req{bad, c01StrVals("alice", "data1", "read")})
 		}
-		c01Run(c, cs)
+		c01RunMode(c, cs)
 
 		// unknown function: a compile error for every request
 		cs = c01Build(r, next("unknown-fn"), acl, c01And(c01Call("foo", c01V_("r_sub")), c01Eq(c01V_("r_obj"), c01V_("p_obj"))), "ao", 2, 0)
-		c01Run(c, cs)
+		c01RunMode(c, cs)
 		// eval() spelled in a matcher whose policy has no sub-rule column
 		cs = c01Build(r, next("eval-plain"), acl, c01And(c01Call("eval", c01Str("r_sub == p_sub")), c01Eq(c01V_("r_obj"), c01V_("p_obj"))), "ao", 3, 0)
 		cs.extra = []c01ParseEnt{{"r_sub == p_sub", c01Eq(c01V_("r_sub"), c01V_("p_sub"))}}
 		cs.m[0].st.sq = false
 		cs.wm = c01Print(cs.m[0].ast, c01Style{})
-		c01Run(c, cs)
+		c01RunMode(c, cs)
 		// eval with an empty policy is an error; a policy-free eval matcher with rules present is evaluated once
 		cs = c01Build(r, next("eval-empty"), acl, c01Call("eval", c01Str("r_sub == 'alice'")), "ao", round%2*2, 0)
 		cs.extra = []c01ParseEnt{{"r_sub == 'alice'", c01Eq(c01V_("r_sub"), c01Str("alice"))}}
 		cs.m[0].st.sq = false
 		cs.wm = c01Print(cs.m[0].ast, c01Style{})
-		c01Run(c, cs)
+		c01RunMode(c, cs)
 
 		// a custom matcher that differs from the model's, one that does not parse, one with a comment
 		cs = c01Build(r, next("custom-matcher"), acl, nil, "ao", 4, 0)
 		other := c01And(c01Eq(c01V_("r_obj"), c01V_("p_obj")), c01Eq(c01V_("r_act"), c01Str("read")))
 		cs.wm = c01Print(other, c01Style{dot: true}) + "  # " + c01Pick(r, []string{"trailing comment", "p.sub", "eval(x)"})
 		cs.wmAst = other
-		c01Run(c, cs)
+		c01RunMode(c, cs)
 		cs = c01Build(r, next("custom-broken"), acl, nil, "ao", 2, 0)
 		cs.wm, cs.wmAst = "r.sub == ", nil
-		c01Run(c, cs)
+		c01RunMode(c, cs)
 		cs = c01Build(r, next("custom-policy-free"), acl, nil, "ao", 2, 0)
 		pf := c01Eq(c01V_("r_sub"), c01Str("alice"))
 		cs.wm, cs.wmAst = c01Print(pf, c01Style{dot: true, sq: true}), pf
-		c01Run(c, cs)
+		c01RunMode(c, cs)
 
 		// rule of the wrong size in the policy: error when the loop reaches it
 		for _, eff := range []string{"ao", "do"} {
@@ -933,19 +936,19 @@ func c01Specials(c *Ctx, byName map[string]*c01Family, next func(string) string)
 			short := []string{"alice", "data1"}
 			at := r.Intn(len(cs.p[0].rules) + 1)
 			cs.p[0].rules = append(cs.p[0].rules[:at:at], append([][]string{short}, cs.p[0].rules[at:]...)...)
-			c01Run(c, cs)
+			c01RunMode(c, cs)
 		}
 
 		// matchers whose result is not a bool
 		for _, m := range []*c01E{c01Num(1), c01Num(0), c01Bin("+", c01Num(1), c01Num(1)), c01V_("r_sub"), c01V_("p_sub"),
 			c01Bin("-", c01Num(2), c01Num(2)), c01Bin("+", c01V_("p_sub"), c01Num(1)), c01Bin("+", c01V_("r_sub"), c01Bool(true))} {
 			cs = c01Build(r, next("non-bool"), acl, m, c01Pick(r, c01EffectTags), 2*(round%2)+1, 0)
-			c01Run(c, cs)
+			c01RunMode(c, cs)
 		}
 
 		// unsupported effect expression
 		cs = c01Build(r, next("unsupported-effect"), acl, nil, "un", round%3, 0)
-		c01Run(c, cs)
+		c01RunMode(c, cs)
 
 		// model text features: [ ] lists, comment, literal texts
 		for _, raw := range []struct {
@@ -964,7 +967,7 @@ func c01Specials(c *Ctx, byName map[string]*c01Family, next func(string) string)
 			cs = c01Build(r, next("text"), acl, raw.ast, "ao", 3, 0)
 			cs.m[0].raw = raw.text
 			cs.wm, cs.wmAst = cs.mStored(cs.m[0]), raw.ast
-			c01Run(c, cs)
+			c01RunMode(c, cs)
 		}
 	}
 }
